@@ -171,6 +171,13 @@ class RawConn:
         except Exception:
             return False
 
+    def send_raw(self, d):
+        try:
+            self._run(self.ws.send(pickle.dumps(d)))
+            return True
+        except Exception:
+            return False
+
     def close(self):
         try:
             self._run(self.ws.close())
